@@ -241,6 +241,15 @@ func (w *csWorld) observe(ctx sdk.Context) csObs {
 	return o
 }
 
+// supOf: supply of a tracked denomination code; zero for a code outside the tracked set (the real code may number a
+// pool beyond the pools the harness tracks, e.g. after a change that skips sequence numbers)
+func (o csObs) supOf(code string) *big.Int {
+	if v, ok := o.sup[code]; ok && v != nil {
+		return v
+	}
+	return big.NewInt(0)
+}
+
 func csObsTerm(w *csWorld, o csObs) string {
 	var pools, bal, sup []string
 	for _, p := range o.pools {
@@ -642,7 +651,12 @@ func (e *Env) csGenOp(w *csWorld, o csObs, now *big.Int, prop string) csOp {
 	op := csOp{NowNs: now.String(), Sender: e.Pick(csUsers)}
 	u := fmt.Sprintf("U%d", op.Sender)
 	fee := bigOf(o.params.Fee)
-	bal := func(ac, dc string) *big.Int { return o.bal[ac+"|"+dc] }
+	bal := func(ac, dc string) *big.Int {
+		if v, ok := o.bal[ac+"|"+dc]; ok && v != nil {
+			return v
+		}
+		return big.NewInt(0) // an account or denomination outside the tracked set
+	}
 	poolSeq := func(ti int) int64 {
 		for _, p := range o.pools {
 			if p[0] == int64(ti) {
@@ -823,8 +837,8 @@ func (e *Env) csGenOp(w *csWorld, o csObs, now *big.Int, prop string) csOp {
 		exact := e.csAmount(bal(u, "S"))
 		maxTok := e.csAmount(bal(u, tok))
 		minLiq := big.NewInt(0)
-		if seq > 0 && o.sup[fmt.Sprintf("L%d", seq)].Sign() > 0 {
-			X, Y, Lq := bal(esc, "S"), bal(esc, tok), o.sup[fmt.Sprintf("L%d", seq)]
+		if seq > 0 && o.supOf(fmt.Sprintf("L%d", seq)).Sign() > 0 {
+			X, Y, Lq := bal(esc, "S"), bal(esc, tok), o.supOf(fmt.Sprintf("L%d", seq))
 			room := new(big.Int).Sub(capv, X)
 			switch e.Pick(6) {
 			case 0:
@@ -911,7 +925,7 @@ func (e *Env) csGenOp(w *csWorld, o csObs, now *big.Int, prop string) csOp {
 			wamt = new(big.Int).Set(bal(u, lc))
 		}
 		if e.Chance(0.05) {
-			wamt = new(big.Int).Set(o.sup[lc])
+			wamt = new(big.Int).Set(o.supOf(lc))
 		}
 		if wamt.Sign() <= 0 {
 			wamt = big.NewInt(1)
@@ -923,10 +937,10 @@ func (e *Env) csGenOp(w *csWorld, o csObs, now *big.Int, prop string) csOp {
 				tcode = fmt.Sprintf("T%d", p[0])
 			}
 		}
-		if tcode != "" && o.sup[lc].Sign() > 0 {
+		if tcode != "" && o.supOf(lc).Sign() > 0 {
 			ec := fmt.Sprintf("E%d", q)
-			ps := new(big.Int).Div(new(big.Int).Mul(wamt, bal(ec, "S")), o.sup[lc])
-			pt := new(big.Int).Div(new(big.Int).Mul(wamt, bal(ec, tcode)), o.sup[lc])
+			ps := new(big.Int).Div(new(big.Int).Mul(wamt, bal(ec, "S")), o.supOf(lc))
+			pt := new(big.Int).Div(new(big.Int).Mul(wamt, bal(ec, tcode)), o.supOf(lc))
 			switch e.Pick(6) {
 			case 0:
 				minStd, minTok = ps, pt
